@@ -15,7 +15,7 @@ import (
 func init() { register("C12", c12) }
 
 func c12(p *an.Prog, r *an.R, tier string) {
-	r.Explanation = "C12 (structural clauses): (R1) in packages index, gitindex, search and cmd/zoekt-merge-index every file-creating call produces a name that the loader cannot see (a .tmp name, or the listed heap-profile exception); loader-visible names (*.zoekt, *.meta) only come into being as the destination of os.Rename; (R2) the loader's suffix set and the temp suffix are disjoint and the .meta suffix is the same literal wherever it is used; (R3) Builder.Finish retires old shards (os.Remove, SetTombstone) only after the rename loop and never on a path where the build error is set; (R4) writeShard/builderWriteAll close the temp file with the error checked before it is registered or renamed; (R5) the sticky buildError is never overwritten by a possibly-nil value, every rename/remove error reaches it, and Finish returns it. Does NOT decide atomicity across several shards of one repository (known finding: independent renames), nor durability under power loss."
+	r.Explanation = "C12 (structural clauses): (R1) in packages index, gitindex, search and cmd/zoekt-merge-index every file-creating call produces a name that the loader cannot see (a .tmp name, or the listed heap-profile exception); loader-visible names (*.zoekt, *.meta) only come into being as the destination of os.Rename; (R2) the loader's suffix set and the temp suffix are disjoint and the .meta suffix is the same literal wherever it is used; (R3) Builder.Finish retires old shards (os.Remove, SetTombstone) only after the rename loop and never on a path where the build error is set; (R4) writeShard/builderWriteAll close the temp file with the error checked before it is registered or renamed; (R5) the sticky buildError is never overwritten by a possibly-nil value, every rename/remove error reaches it, and Finish returns it. With shard merging on, no compound-prefixed file (shard or .meta sidecar) reaches os.Remove in Finish. Does NOT decide atomicity across several shards of one repository (known finding: independent renames), nor durability under power loss."
 	r.Rule("C12.R1", "who-may-create: every os.Create/CreateTemp/OpenFile(O_CREATE)/WriteFile in the index-writing packages creates a name ending in .tmp (exception table); loader-visible names are produced only by os.Rename")
 	r.Rule("C12.R2", "suffix agreement: the directory watcher loads exactly *.zoekt (+ .meta sidecars); the temp suffix .tmp is not loader-visible; '.meta' is one literal shared by writer, reader and watcher")
 	r.Rule("C12.R3", "Builder.Finish: every os.Remove/SetTombstone of an old shard is preceded by the rename loop and is unreachable while buildError != nil")
